@@ -475,10 +475,17 @@ pub fn gen_withdraw(r: &mut Rng, w: &mut Wallet, cx: &Ctx) -> Option<Transaction
     let mel = mels.iter().min_by_key(|c| c.cdh.coin_data.value.0).unwrap();
     let inputs = vec![(*mel).clone(), liq.clone()];
     let amount = liq.cdh.coin_data.value.0;
-    let outs = vec![out(w.rand_addr(r, cx.height), amount, liq.cdh.coin_data.denom)];
-    let fee = mel.cdh.coin_data.value.0.min(1 << 120);
+    let mut outs = vec![out(w.rand_addr(r, cx.height), amount, liq.cdh.coin_data.denom)];
+    let mut fee = mel.cdh.coin_data.value.0.min(1 << 120);
     if fee != mel.cdh.coin_data.value.0 {
         return None;
+    }
+    // a withdrawal request has exactly one output; sometimes there is a second one (MEL change to another address),
+    // which makes it an ordinary transaction whose coins must be left alone at sealing
+    if r.chance(1, 4) && fee > 2000 {
+        let c = 1 + r.below(1000) as u128;
+        outs.push(out(w.rand_addr(r, cx.height), c, Denom::Mel));
+        fee -= c;
     }
     let tx = assemble(w, TxKind::LiqWithdraw, &inputs, outs, fee, key.to_bytes().to_vec());
     (min_fee(&tx, cx.mult) <= fee).then_some(tx)
@@ -632,7 +639,24 @@ pub fn gen_doscmint(r: &mut Rng, w: &mut Wallet, cx: &Ctx, hist: &SmtMapping<Cas
     fix_fee(w, &mut tx, &inputs, cx.mult, 0, change).then_some(tx)
 }
 
+/// the one historical faucet transaction that mainnet accepts (its hash is hard-wired in `handle_faucet_tx`)
+pub fn grandfathered_faucet() -> Transaction {
+    Transaction {
+        kind: TxKind::Faucet,
+        inputs: vec![],
+        outputs: vec![CoinData { value: CoinValue::from_millions(1001u64), denom: Denom::Mel, covhash: "t3ew4xh2yts8j1a8vzdfpbkzzvb5gz3sn7s9jw7qc9djrph2wpg52g".parse().unwrap(), additional_data: vec![].into() }],
+        data: hex::decode("202fb0573b6dfe780f249bec6069bb39dbccb7ed9536c0480e20e1e29050f430").unwrap().into(),
+        fee: CoinValue::from_millions(1001u64),
+        covenants: vec![],
+        sigs: vec![],
+    }
+}
+
 pub fn gen_faucet(r: &mut Rng, w: &mut Wallet, cx: &Ctx) -> Transaction {
+    // the grandfathered transaction itself, on any network
+    if r.chance(1, 12) {
+        return grandfathered_faucet();
+    }
     // off mainnet a faucet may mint any denomination — occasionally two coins of a pool's liquidity token, each
     // redeemable alone but not together (K-faucet-liq territory; exercises the withdrawal guard)
     if r.chance(1, 8) && !cx.known_pools.is_empty() {
